@@ -240,13 +240,146 @@ def mutations(model):
     return out
 
 
+ALIAS_NAMES = ['alias', 'o', 'sh', 'own']       # names the aliasing phase adds
+
+
+def map_nodes(model):
+    """(path, node) of every sub-map below the root, deterministic order"""
+    out = []
+
+    def rec(node, path):
+        for k in sorted(node.kids):
+            if isinstance(node.kids[k], Node):
+                out.append((path + (k,), node.kids[k]))
+                rec(node.kids[k], path + (k,))
+    rec(model, ())
+    return out
+
+
+def shared_mutations(shared):
+    """mutations inside the shared sub-map: (what, path relative to the shared map, name, route)"""
+    out = []
+
+    def rec(node, rel):
+        for name in NEW_NAMES[:1] if rel else NEW_NAMES:
+            for r in ('direct', 'first-owner', 'other-owner'):
+                out.append(('add', rel, name, r))
+        handles = [k for k in sorted(node.kids) if isinstance(node.kids[k], ValHandle)]
+        if handles:
+            for r in ('direct', 'first-owner', 'other-owner'):
+                out.append(('replace', rel, handles[0], r))
+                out.append(('tomap', rel, handles[0], r))
+        out.append(('clear', rel, None, 'direct'))
+        for k in sorted(node.kids):
+            if isinstance(node.kids[k], Node):
+                rec(node.kids[k], rel + (k,))
+    rec(shared, ())
+    return out
+
+
+def take(sp, real, what):
+    try:
+        return real.get_static_map()
+    except Exception as ex:         # noqa
+        sp.fail('snapshot-raises', '%s: get_static_map() raised %r' % (what, ex))
+
+
+def alias_phase(sp, cx, m, model, snap, absent_names):
+    """One ResourceMap object stored under two owners, snapshots taken from the FIRST owner `m` before and after
+    a change made through the shared object / through either owner's path.  Only reads and snapshots are checked
+    (what .parent of a map with two owners should be is not fixed by the statement)."""
+    names = absent_names + NEW_NAMES + ALIAS_NAMES
+    spath, shared = sp.pick(map_nodes(model), 'shared')
+    holder = node_at(model, spath[:-1])
+    kind = sp.pick(['other-root', 'same-parent', 'nested-sibling'], 'second-owner')
+    other_model = None
+    if kind == 'other-root':
+        other = cx.map()
+        h = cx.handle()
+        other['own'] = h
+        other['sh'] = shared.real
+        other_model = Node(other)
+        other_model.kids = {'own': h, 'sh': shared}
+        other_root, other_prefix = other, ('sh',)
+        sp.note('alias: b = map{own: %r}; b[\'sh\'] = (the sub-map at %r of m)' % (h, '/'.join(spath)))
+    elif kind == 'same-parent':
+        holder.real['alias'] = shared.real
+        holder.kids['alias'] = shared
+        other_root, other_prefix = m, spath[:-1] + ('alias',)
+        sp.note('alias: (map %r of m)[\'alias\'] = (the sub-map at %r of m)' % ('/'.join(spath[:-1]), '/'.join(spath)))
+    else:
+        o = cx.map()
+        m['o'] = o
+        m['o/sh'] = shared.real
+        on = Node(o)
+        on.kids = {'sh': shared}
+        model.kids['o'] = on
+        other_root, other_prefix = m, ('o', 'sh')
+        sp.note('alias: m[\'o\'] = map{}; m[\'o/sh\'] = (the sub-map at %r of m)' % ('/'.join(spath),))
+    sp.cover('alias-' + kind)
+    if sp.flag('first-owner-last'):
+        # store the shared map once more at its original place (same object, same name): the first owner is
+        # the one that attached it last
+        holder.real[spath[-1]] = shared.real
+        sp.note('alias: (map %r of m)[%r] = the same sub-map again' % ('/'.join(spath[:-1]), spath[-1]))
+        sp.cover('alias-first-owner-last')
+    else:
+        sp.cover('alias-second-owner-last')
+    snap_a = take(sp, m, 'first owner, after aliasing')
+    compare(sp, snap_a, model, m, (), 'snapshot of the first owner after aliasing', names)
+    if other_model is not None:
+        compare(sp, take(sp, other_model.real, 'second owner'), other_model, other_model.real, (),
+                'snapshot of the second owner', names)
+    # one change inside the shared map
+    what, rel, name, route = sp.pick(shared_mutations(shared), 'shared-mutation')
+    node = node_at(shared, rel)
+    try:
+        if what == 'clear':
+            sp.note('alias: (shared sub-map, relative path %r).clear()' % '/'.join(rel))
+            node.real.clear()
+            node.kids = {}
+        else:
+            h = cx.handle()
+            if what == 'tomap':
+                value = cx.map()
+                value['a'] = h
+                mval = Node(value)
+                mval.kids['a'] = h
+            else:
+                value = mval = h
+            if route == 'direct':
+                sp.note('alias: (shared sub-map, relative path %r)[%r] = %s' % ('/'.join(rel), name, what))
+                node.real[name] = value
+            elif route == 'first-owner':
+                key = '/'.join(spath + rel + (name,))
+                sp.note('alias: m[%r] = %s' % (key, what))
+                m[key] = value
+            else:
+                key = '/'.join(other_prefix + rel + (name,))
+                sp.note('alias: %s[%r] = %s' % ('b' if kind == 'other-root' else 'm', key, what))
+                other_root[key] = value
+            node.kids[name] = mval
+    except Exception as ex:         # noqa
+        sp.fail('harness-model', 'aliasing phase mutation raised %r' % (ex,))
+    sp.cover('alias-' + what)
+    sp.cover('alias-mutation-' + route)
+    snap_b = take(sp, m, 'first owner, after the change through the shared map')
+    compare(sp, snap_b, model, m, (), 'snapshot of the first owner after a change made through the shared map', names)
+    if other_model is not None:
+        compare(sp, take(sp, other_model.real, 'second owner'), other_model, other_model.real, (),
+                'snapshot of the second owner after the change', names)
+    attack(sp, snap, model, (), names)
+    attack(sp, snap_b, model, (), names)
+    compare(sp, snap_b, model, m, (), 'last snapshot after setattr/delattr attempts', names)
+
+
 def node_at(model, path):
     for k in path:
         model = model.kids[k]
     return model
 
 
-def h_static(sp, levels=((NAMES, 2), (SUB4, 2), (SUB2, 1)), rots=1, mutate=False, flavours=('plain',)):
+def h_static(sp, levels=((NAMES, 2), (SUB4, 2), (SUB2, 1)), rots=1, mutate=False, flavours=('plain',), alias=False):
     levels = [(list(a), b) for a, b in levels]
     rot = sp.choose(rots, 'value-rotation')
     flavour = sp.pick(list(flavours), 'flavour')       # instance flavour of every handle and map object
@@ -309,6 +442,10 @@ def h_static(sp, levels=((NAMES, 2), (SUB4, 2), (SUB2, 1)), rots=1, mutate=False
         attack(sp, snap2, model, (), absent_names)
         compare(sp, snap2, model, m, (), 'second snapshot after setattr/delattr attempts',
                 absent_names + NEW_NAMES)
+    if alias:
+        if not map_nodes(model):
+            sp.assume(False)            # no sub-map to share in this tree
+        alias_phase(sp, cx, m, model, snap, absent_names)
     sp.done()
 
 
@@ -325,6 +462,11 @@ _MUT_TAGS = ['nested-mutation-resnapshot', 'deep-nested-mutation-resnapshot', 'r
              'resnapshot-after-composite-key', 'resnapshot-after-direct-edit', 'resnapshot-after-clear',
              'resnapshot-after-clear-nonempty', 'resnapshot-after-add', 'resnapshot-after-replace']
 _MUT_REQ = _TAGS + _MUT_TAGS
+_ALIAS_REQ = ['alias-other-root', 'alias-same-parent', 'alias-nested-sibling', 'alias-first-owner-last',
+              'alias-second-owner-last', 'alias-add', 'alias-replace', 'alias-tomap', 'alias-clear',
+              'alias-mutation-direct', 'alias-mutation-first-owner', 'alias-mutation-other-owner',
+              'handle-compared', 'deep-handle-compared', 'submap-compared', 'attacked-submap', 'layered',
+              'non-identifier']
 _FLAV_REQ = _TAGS + ['flavour-falsy', 'flavour-empty', 'flavour-equal']
 _MANGLE_REQ = ['layered', 'mangling-style', 'mangling-style-all-identifiers', 'mangled-with-one-trailing-underscore',
                'only-underscores', 'dunder-style', 'attr-access', 'handle-compared', 'deep-handle-compared',
@@ -336,7 +478,8 @@ TIERS = {
               ('static', dict(levels=[[MANGLE, 2], [MANGLE6, 1]], rots=1), {'required': _MANGLE_REQ}),
               ('static', dict(levels=[[['a', 'b c'], 2], [SUB3B, 2], [SUB2, 1]], rots=1, mutate=True),
                {'required': _MUT_REQ}),
-              ('static', dict(levels=[[NAMES, 2], [SUB2, 1]], rots=1, flavours=FLAVOURS), {'required': _FLAV_REQ})],
+              ('static', dict(levels=[[NAMES, 2], [SUB2, 1]], rots=1, flavours=FLAVOURS), {'required': _FLAV_REQ}),
+              ('static', dict(levels=[[['a', 'b c'], 2], [SUB2, 1]], rots=1, alias=True), {'required': _ALIAS_REQ})],
     'thorough': [('static', dict(levels=[[NAMES, 3], [SUB3B, 2], [SUB2, 1]], rots=1)),
                  ('static', dict(levels=[[SUB5, 2], [SUB5, 2], [SUB3, 1]], rots=1)),
                  ('static', dict(levels=[[NAMES, 2], [SUB3B, 2], [SUB2, 1]], rots=3)),
@@ -350,7 +493,11 @@ TIERS = {
                  ('static', dict(levels=[[NAMES, 2], [SUB3B, 2], [SUB2, 1]], rots=1, flavours=FLAVOURS),
                   {'required': _FLAV_REQ}),
                  ('static', dict(levels=[[SUB3B, 2], [SUB2, 1]], rots=1, flavours=FLAVOURS, mutate=True),
-                  {'required': _FLAV_REQ + ['nested-mutation-resnapshot', 'root-mutation-resnapshot']})],
+                  {'required': _FLAV_REQ + ['nested-mutation-resnapshot', 'root-mutation-resnapshot']}),
+                 ('static', dict(levels=[[['a', 'b c'], 2], [SUB2, 2], [['a'], 1]], rots=1, alias=True),
+                  {'required': _ALIAS_REQ}),
+                 ('static', dict(levels=[[SUB3B, 2], [SUB2, 1]], rots=1, alias=True, flavours=('plain',) + FLAVOURS),
+                  {'required': _ALIAS_REQ + ['flavour-equal', 'flavour-falsy', 'flavour-empty']})],
 }
 BUDGET_S = {'quick': 300, 'thorough': 1500}
 
@@ -370,6 +517,8 @@ BOUNDS = {
     'quick': "names a,b,'b c','1x',class,_y,__x,__x__,e-acute,'' ; root map: every set of <=2 names x "
              "{handle, layered handle, sub-map}; spine sub-map: <=2 names of a,'b c',__x; third level <=1 of a,__x; "
              "mangling shapes: root <=2 of __x_,__x_y,__x,__,___,__x__,_x_,x__ x kinds, spine <=1 of them; "
+             "aliasing: root <=2 of a,'b c', spine <=1 of a,__x, x shared sub-map x {other root, same parent, sibling} "
+             "x which owner attached last x one change inside the shared map by 3 routes; "
              "re-snapshot phase: root <=2 of a,'b c' with the same lower levels, x every mutation {add 'new' / "
              "'n w', replace first handle, clear} x {root, each nested map} x {direct, composite key on the root}",
     'thorough': "root map: every set of <=3 of the 10 names x kinds, spine sub-map <=2 of a,'b c',__x, third "
@@ -380,6 +529,10 @@ BOUNDS = {
                 "of the 10 names with spine <=1 of a,__x and third level <=1 of a, x every mutation",
 }
 ASSUMPTIONS = [
+    'aliasing entries: one ResourceMap object is stored under two owners (another root map, the same parent under '
+    'a second name, or a sibling sub-map); snapshots are always taken from the first owner (and from the other '
+    'root) and must mirror what the map itself answers at the time of the call; nothing is assumed about '
+    '.parent/.key of the shared map',
     'flavour entries: every handle and map object is an instance of a subclass that is falsy, empty (__len__ 0) or '
     'equal to everything; the oracle is unchanged and only compares identities',
     'names colliding with members of the snapshot (get, _handle_names, attributes of object such as __class__, '
